@@ -127,6 +127,9 @@ func TestC05(t *testing.T) {
 	}
 
 	leaves, depth := gen.LeafAlphabet(true), 2
+	if !cfg.Thorough() {
+		leaves = leaves[:12]
+	}
 	st.Stream("enum-depth2", true, fmt.Sprintf("all trees of operator depth <= 2 over %d leaves, operators AND OR NOT + - ^ ^2 ~ ~3 f:(E), minimal parentheses", len(leaves)))
 	gen.EnumTrees(leaves, depth, gen.EnumOps{Suffix: true, Group: true}, cfg.Shard, cfg.NShards, func(n *gen.Node) {
 		run("enum-depth2", TreeCase{Tree: n})
